@@ -146,6 +146,33 @@ def build_class(prog):
             spec.outline(*[getattr(cls, f's{i}') for i in range(n)])
         ns['define'] = classmethod(define)
         klass = cls = type('GenChain', (plumpy.WorkChain,), ns)
+    # passive recorders of the three places that touch the status message (set_status, on_paused, on_playing): the hook calls,
+    # their arguments and the status right after each, for the status model (`pmodel status`)
+    def _rec(self, kind, arg):
+        self.__dict__.setdefault('_status_ev', []).append((kind, arg, self.status))
+
+    def set_status(self, status):
+        super(klass, self).set_status(status)
+        if not self.__dict__.get('_hookdepth', 0):
+            _rec(self, 'S', status)
+
+    def on_paused(self, msg=None):
+        self.__dict__['_hookdepth'] = self.__dict__.get('_hookdepth', 0) + 1
+        try:
+            super(klass, self).on_paused(msg)
+        finally:
+            self.__dict__['_hookdepth'] -= 1
+        _rec(self, 'P', msg)
+
+    def on_playing(self):
+        self.__dict__['_hookdepth'] = self.__dict__.get('_hookdepth', 0) + 1
+        try:
+            super(klass, self).on_playing()
+        finally:
+            self.__dict__['_hookdepth'] -= 1
+        _rec(self, 'Y', None)
+    for _f in (set_status, on_paused, on_playing):
+        setattr(cls, _f.__name__, _f)
     # make the class importable by name (persistence identifies classes as module:qualname)
     import hashlib
     import sys as _sys
@@ -383,6 +410,9 @@ class Run:
                 r = p.resume() if toks[1] == '-' else p.resume(None) if toks[1] == 'N' else p.resume(int(toks[1]))
             elif toks[0] == 'fail':
                 r = p.fail(self.fail_exc, None)
+            elif toks[0] == 'setstatus':        # (not an op of the `pm` line protocol: used by the status stream of C05 only)
+                p.set_status(None if toks[1] == '-' else toks[1])
+                r = None
             elif toks[0] == 'cancelfut':
                 r = p.future().cancel()
             elif toks[0] == 'callsoon':
